@@ -300,7 +300,11 @@ func ApplyEvent(e *zerolog.Event, ops []Op) *zerolog.Event {
 		case "stack":
 			e = e.Stack()
 		case "ctx":
-			e = e.Ctx(CtxWith(string(v.S)))
+			if v.Nil {
+				e = e.Ctx(nil) // forget the context inherited from the logger: hooks see Background again
+			} else {
+				e = e.Ctx(CtxWith(string(v.S)))
+			}
 		case "getctx":
 			// Func-style read of the event's Go context, logged under K
 			e = e.Func(func(e *zerolog.Event) { e.Str(k, CtxMarker(e.GetCtx())) })
@@ -454,7 +458,11 @@ func ApplyContext(c zerolog.Context, ops []Op) zerolog.Context {
 		case "stack":
 			c = c.Stack()
 		case "ctx":
-			c = c.Ctx(CtxWith(string(v.S)))
+			if v.Nil {
+				c = c.Ctx(nil)
+			} else {
+				c = c.Ctx(CtxWith(string(v.S)))
+			}
 		case "reset":
 			c = c.Reset()
 		case "strs":
@@ -1088,6 +1096,12 @@ func (rt *Rt) applyStep(parent *zerolog.Logger, st Step) (zerolog.Logger, *RecWr
 	case "sample":
 		return parent.Sample(mkSampler(st)), nil
 	case "output":
+		if st.N == 1 {
+			return parent.Output(io.Discard), nil // muted; a later Output must find context and hooks intact
+		}
+		if st.N == 2 {
+			return parent.Output(nil), nil
+		}
 		w := &RecWriter{}
 		return parent.Output(w), w
 	}
